@@ -6,16 +6,29 @@
  *   parsec_remote_dep_init (MCA parameter -> topology predicate), parsec_remote_dep_reconfigure,
  *   remote_deps_allocation_init / remote_deps_allocate / remote_deps_free (recycling),
  *   parsec_remote_dep_activate, parsec_remote_dep_propagate, parsec_gather_collective_pattern,
- *   remote_dep_complete_and_cleanup, remote_dep_rank_to_bit / remote_dep_bit_to_rank (remote_dep.h).
+ *   remote_dep_complete_and_cleanup, remote_dep_rank_to_bit / remote_dep_bit_to_rank (remote_dep.h),
+ * and the REAL parsec/remote_dep_mpi.c for its static remote_dep_mpi_pack_dep (which outputs travel to a given peer).
  * N virtual ranks live in one address space: one fake context whose my_rank is switched to the
  * rank that is "running"; the send path (remote_dep_dequeue_send, and the termination-detection
- * module's outgoing_message_start) is a harness stub that appends (sender, receiver, wire mask,
- * payload) to a FIFO owned by the harness. Delivering a message = playing the receiver with the
+ * module's outgoing_message_start) is a harness stub that runs the real pack_dep on the command and appends
+ * (sender, receiver, wire mask read back from the packed header, selected outputs) to a FIFO owned by the harness. Delivering a message = playing the receiver with the
  * real parsec_remote_dep_propagate (tc->iterate_successors is harness-owned and reports exactly
  * the (output, rank) pairs of the destination sets to the real gather callback).
  * No MPI call is made at run time (the library is only linked against MPI).
  */
 #include "parsec/remote_dep.c"
+/* The real message-packing code: remote_dep_mpi.c is compiled here too, for the static remote_dep_mpi_pack_dep (per-peer payload
+ * selection). Its own send-path entry points are renamed so that remote_dep.c's calls reach the harness stubs below. */
+#define remote_dep_dequeue_send real_remote_dep_dequeue_send
+#define remote_dep_dequeue_init real_remote_dep_dequeue_init
+#define remote_dep_dequeue_fini real_remote_dep_dequeue_fini
+int real_remote_dep_dequeue_send(parsec_execution_stream_t *es, int rank, parsec_remote_deps_t *deps);
+int real_remote_dep_dequeue_init(parsec_context_t *context);
+int real_remote_dep_dequeue_fini(parsec_context_t *context);
+#include "parsec/remote_dep_mpi.c"
+#undef remote_dep_dequeue_send
+#undef remote_dep_dequeue_init
+#undef remote_dep_dequeue_fini
 #include "parsec/mca/termdet/termdet.h"
 #include "parsec/utils/mca_param.h"
 #include <setjmp.h>
@@ -58,27 +71,34 @@ typedef struct { int from, to; uint32_t wire, payload; } msg_t;
 static msg_t q_msg[MAXMSG]; static int q_head, q_tail, q_overflow;
 static int cur_sends;                               /* sends recorded during the current activate call */
 
-static int set_has_bits(const uint32_t *rank_bits, int rank, int root)
-{
-    uint32_t bank, bit; remote_dep_rank_to_bit(rank, &bank, &bit, root);
-    return (rank_bits[bank] >> bit) & 1;
-}
-
 /* ---- stubs of the send path (interposition: these definitions win over libparsec's) ---- */
+static char g_pkbuf[8192] __attribute__((aligned(16)));
+static int g_pack_bad; static char g_pack_msg[200];
+static int ce_pack_size(parsec_comm_engine_t *ce, int incount, parsec_datatype_t type, int *size) { (void)ce; (void)type; *size = incount; return 0; }
+static int ce_pack(parsec_comm_engine_t *ce, void *inbuf, int incount, parsec_datatype_t type, void *outbuf, int outsize, int *position)
+{ (void)ce; (void)type; if (*position + incount > outsize) return -1; memcpy((char *)outbuf + *position, inbuf, incount); *position += incount; return 0; }
+static int tdm_outgoing_pack(parsec_taskpool_t *tp, int dst, char *buf, int *pos, int size) { (void)tp; (void)dst; (void)buf; (void)pos; (void)size; return 0; }
+
 int remote_dep_dequeue_send(parsec_execution_stream_t *es, int rank, parsec_remote_deps_t *deps)
 {
-    /* per-peer payload rule of remote_dep_mpi_pack_dep(): outputs of outgoing_mask whose rank_bits contain the peer;
-     * the wire message carries deps->msg (output_mask = the propagation mask) unchanged */
-    uint32_t payload = 0;
-    for (int k = 0; deps->outgoing_mask >> k; k++) {
-        if (!((1U << k) & deps->outgoing_mask)) continue;
-        if (rank < 0 || rank >= c_N) continue;
-        if (!set_has_bits(deps->output[k].rank_bits, rank, deps->root)) continue;
-        payload |= 1U << k;
+    /* what the communication thread does with the command: the REAL remote_dep_mpi_pack_dep() selects the outputs whose data
+     * travel to this peer and packs the wire header (deps->msg, whose output_mask is the propagation mask) */
+    dep_cmd_item_t item; memset(&item, 0, sizeof(item));
+    item.action = DEP_ACTIVATE; item.priority = deps->max_priority;
+    item.cmd.activate.peer = rank; item.cmd.activate.task.source_deps = (remote_dep_datakey_t)deps;
+    int position = 0; int32_t before = deps->pending_ack;
+    uint32_t payload = 0, wire = (uint32_t)deps->msg.output_mask;
+    if (rank >= 0 && rank < c_N) {
+        memset(g_pkbuf, 0, 512);
+        if (0 != remote_dep_mpi_pack_dep(rank, &item, g_pkbuf, (int)sizeof(g_pkbuf), &position)) { g_pack_bad = 1; snprintf(g_pack_msg, sizeof(g_pack_msg), "remote_dep_mpi_pack_dep could not pack the activation for peer %d", rank); }
+        payload = (uint32_t)item.cmd.activate.task.output_mask;          /* no short messages: every selected output is listed here */
+        remote_dep_wire_activate_t hdr; memcpy(&hdr, g_pkbuf, sizeof(hdr)); wire = (uint32_t)hdr.output_mask;
+        uint32_t *data_sizes = (uint32_t *)(g_pkbuf + dep_count);
+        if ((int)data_sizes[0] != __builtin_popcount(payload) && !g_pack_bad) { g_pack_bad = 1; snprintf(g_pack_msg, sizeof(g_pack_msg), "activation for peer %d announces %u data entries but selects outputs 0x%x", rank, data_sizes[0], payload); }
     }
-    cur_sends++;
+    cur_sends += 1 + (deps->pending_ack - before);                        /* completions owed: the message + one per data transfer */
     if (q_tail < MAXMSG) { q_msg[q_tail].from = es->virtual_process->parsec_context->my_rank; q_msg[q_tail].to = rank;
-        q_msg[q_tail].wire = (uint32_t)deps->msg.output_mask; q_msg[q_tail].payload = payload; q_tail++; }
+        q_msg[q_tail].wire = wire; q_msg[q_tail].payload = payload; q_tail++; }
     else q_overflow = 1;
     return 1;
 }
@@ -176,7 +196,7 @@ static void run_case(verdict_t *v)
     static int recv[MAXN][MAXOUT], nact[MAXN], depth[MAXN]; static set_t actby[MAXN];
     memset(v, 0, sizeof(*v));
     for (int r = 0; r < c_N; r++) { nact[r] = 0; actby[r] = 0; depth[r] = 0; for (int k = 0; k < MAXOUT; k++) recv[r][k] = 0; }
-    q_head = q_tail = q_overflow = 0; g_flying = 0;
+    q_head = q_tail = q_overflow = 0; g_flying = 0; g_pack_bad = 0;
     set_t uni = 0; for (int k = 0; k < c_nout; k++) uni |= c_S[k];
     int cap = 2 * c_N * c_nout + 8; if (cap > MAXMSG) cap = MAXMSG;
     uint64_t sig = 1469598103934665603ULL;
@@ -201,7 +221,7 @@ static void run_case(verdict_t *v)
         deps->root = c_root; deps->outgoing_mask |= 1U << k;
         if (!(o->rank_bits[pos] & (1U << bit))) {
             o->rank_bits[pos] |= 1U << bit; o->deps_mask |= 1U << g_dep[2 * k].dep_index;
-            if (0 == o->count_bits) { memset(&o->data, 0, sizeof(o->data)); }
+            if (0 == o->count_bits) { memset(&o->data, 0, sizeof(o->data)); o->data.remote.src_count = o->data.remote.dst_count = 1; o->data.remote.src_datatype = o->data.remote.dst_datatype = parsec_datatype_int8_t; }
             o->count_bits++;
         }
     }
@@ -231,6 +251,11 @@ static void run_case(verdict_t *v)
         g_ctx->my_rank = m.to;
         deps = remote_deps_allocate(&parsec_remote_dep_context.freelist);
         deps->msg.output_mask = m.wire; deps->from = m.from; deps->root = c_root; deps->outgoing_mask = 0; deps->taskpool = NULL;
+        for (int k = 0; k < MAXOUT; k++) {            /* remote_dep_get_datatypes: data description of the outputs this rank consumes */
+            memset(&deps->output[k].data, 0, sizeof(deps->output[k].data));
+            if (k < c_nout && HAS(c_S[k], m.to)) { deps->output[k].data.remote.src_count = deps->output[k].data.remote.dst_count = 1;
+                deps->output[k].data.remote.src_datatype = deps->output[k].data.remote.dst_datatype = parsec_datatype_int8_t; }
+        }
         remote_dep_inc_flying_messages(g_tp); (void)parsec_atomic_fetch_inc_int32(&deps->pending_ack);
         cur_sends = 0;
         parsec_remote_dep_propagate(g_es, &g_task, deps);
@@ -239,6 +264,7 @@ static void run_case(verdict_t *v)
     g_assert_armed = 0;
     v->sig = sig;
     if (q_head < q_tail || q_overflow) { v->failing = 1; v->dup++; if (!v->why[0]) snprintf(v->why, sizeof(v->why), "forwarding does not stop: more than %d messages", cap); }
+    if (g_pack_bad) { v->failing = 1; v->outside++; if (!v->why[0]) snprintf(v->why, sizeof(v->why), "%s", g_pack_msg); }
     if (g_flying != 0 && !v->why[0]) { v->failing = 1; v->dup++; snprintf(v->why, sizeof(v->why), "runtime-action accounting of the activation is unbalanced (%ld)", g_flying); }
 
     /* ---- oracle ---- */
@@ -289,6 +315,9 @@ static void world_init(int topo)
     memset(&g_tdm, 0, sizeof(g_tdm));
     g_tdm.outgoing_message_start = tdm_outgoing_start;
     g_tdm.taskpool_addto_runtime_actions = tdm_addto_actions;
+    g_tdm.outgoing_message_pack = tdm_outgoing_pack; g_tdm.outgoing_message_piggyback_size = 0;
+    parsec_ce.pack_size = ce_pack_size; parsec_ce.pack = ce_pack;
+    parsec_param_short_limit = 0;                     /* data never rides inside the activation: one entry per selected output */
     g_tp->taskpool_id = 1; g_tp->taskpool_type = PARSEC_TASKPOOL_TYPE_PTG; g_tp->tdm.module = &g_tdm; g_tp->context = g_ctx;
     memset(&g_tc, 0, sizeof(g_tc));
     g_tc.name = "P"; g_tc.task_class_id = 0; g_tc.nb_locals = 1; g_tc.iterate_successors = h_iterate;
@@ -427,9 +456,9 @@ static int do_replay(const char *path)
     static char buf[1 << 16]; FILE *f = fopen(path, "r"); if (!f) { perror(path); return 2; }
     size_t n = fread(buf, 1, sizeof(buf) - 1, f); buf[n] = 0; fclose(f);
     int topo = (int)json_int(buf, "topology", -1), N = (int)json_int(buf, "N", -1), root = (int)json_int(buf, "root", -1), nout = (int)json_int(buf, "outputs", -1), var = (int)json_int(buf, "variant", 0);
-    const char *p = strstr(buf, "\"sets\":[");
+    const char *p = strstr(buf, "\"sets\":");
     if (topo < 0 || topo > 2 || N < 2 || N > MAXN || root < 0 || root >= N || nout < 1 || nout > MAXOUT || !p) { fprintf(stderr, "bad replay file\n"); return 2; }
-    p += 8; memset(c_S, 0, sizeof(c_S));
+    p += 7; p = strchr(p, '['); if (!p) return 2; p++; memset(c_S, 0, sizeof(c_S));
     for (int k = 0; k < nout; k++) { p = strchr(p, '['); if (!p) return 2; p++; while (*p && *p != ']') { if (*p >= '0' && *p <= '9') { long r = strtol(p, (char **)&p, 10); if (r >= 0 && r < N) c_S[k] |= BIT(r); } else p++; } }
     world_init(topo); world_set_n(N); c_topo = topo; c_root = root; c_nout = nout; c_var = var; o_verbose = 1;
     char cs[400]; case_str(cs, sizeof(cs)); printf("replay: %s\n", cs);
